@@ -115,6 +115,13 @@ CHECKS = {
              "in both roles, with relabeling, matching on/off, and non-zero entries in padded slots.",
         note=TB + "(n,1) arrays are scalar fields by the library's convention; 1-component vector fields are outside the generated inputs.",
         technique="Coq proof of the extension model + model/implementation correspondence", ref="7 (C17)"),
+    "C14": dict(
+        text="Theorems: every entry of a field present on both sides is reference minus source; entries beyond the common rows and "
+             "one-sided fields are NaN; the diff lives on the common (max-row) domain; the diff names every field of either side "
+             "exactly once; identical values give an all-zero diff. Tied to `diff_to` on tabular and mesh data (exact dyadic values) "
+             "and to the file written by `--diff`, decoded independently, for relabeled meshes with a known field delta.",
+        note=TB + "Unsigned integer and string fields are not generated (subtraction undefined / wrapping).",
+        technique="Coq proof of the diff model + model/implementation correspondence", ref="7 (C14)"),
 }
 
 ALL = [f"C{i:02d}" for i in range(1, 21)]
